@@ -36,7 +36,7 @@ Definition eout_rows (opaque : bool) (o : eout) : obs :=
         | None => 0 :: digest_row []
         end)]
   | ODeliver fs => [6; N.of_nat (length fs)] :: map msg_row fs
-  | OErr e => [[8; errcode e]]
+  | OErr e => [[8; if opaque then 0 else errcode e]]
   | OPanic => [[9]]
   | OActivity | OPongSeen => []
   end.
@@ -74,8 +74,18 @@ Fixpoint eng_rows (cfg : ecfg) (opaque : bool) (g : engine) (dead : bool) (is : 
         let '(r, g', d') := eng_rows cfg opaque g1 pn rest in (rows ++ r, g', d')
   end.
 
+Definition count_head (h : N) (rows : obs) : N :=
+  N.of_nat (length (filter (fun r => match r with x :: _ => x =? h | [] => false end) rows)).
+
+(* For CURVE / NOISE_XX configurations the mechanisms are opaque (their tokens are not modelled), so
+   only the security-relevant summary is compared: how many HandshakeComplete and DeliverMessage
+   actions were emitted, whether a panic occurred, and whether the Data phase was reached. *)
 Definition eng_model (cfg : ecfg) (opaque : bool) (is : list cinput) : obs :=
   let '(rows, g, dead) := eng_rows cfg opaque (e_new 0) false is in
+  if opaque then
+    [[count_head 5 rows; count_head 6 rows; count_head 9 rows;
+      match e_phase (g_st g) with PData => 1 | _ => 0 end]]
+  else
   rows ++ [if dead then [99; 5; 0; 0]
            else [99; phasecode (e_phase (g_st g)); len (g_acc g); b2n (h_waiting (g_hb g))]].
 
